@@ -197,3 +197,4 @@ def run(ctx) -> None:
     pairing(ctx)
     trained_marker(ctx)
     pickling(ctx)
+    shared.argname_scope(ctx, ('forml.flow._task', 'forml.pipeline.wrap', 'forml.flow._code.target'), floor=2)
